@@ -201,6 +201,16 @@ impl TraceHandler {
             .map(|fold_fsm| fold_fsm.verif_unclaimed_lore())
     }
 
+    /// Verification hook: the unclaimed fold lore split by cause (not iterated / no position in the new trace).
+    #[cfg(aquavm_verif)]
+    pub fn verif_unclaimed_fold_lore_by_cause(&mut self, fold_id: u32) -> Option<[(usize, u64); 2]> {
+        let data_keeper = &self.data_keeper;
+        self.fsm_keeper
+            .fold_mut(fold_id)
+            .ok()
+            .map(|fold_fsm| fold_fsm.verif_unclaimed_lore_by_cause(data_keeper))
+    }
+
     pub fn meet_fold_end(&mut self, fold_id: u32) -> TraceHandlerResult<()> {
         let fold_fsm = self.fsm_keeper.extract_fold(fold_id)?;
         fold_fsm.meet_fold_end(&mut self.data_keeper);
